@@ -1,7 +1,13 @@
 (* C16 - deep copy yields an equal, independent tree with capabilities re-homed.
    Statements only.  Proved (all T1): copyStruct's version-skew rule for data and pointer sections,
-   capability re-homing, freshness / independence of every copy (frame of writePtr / copyStruct
-   for all trees, all arenas).  Not proved: [copy_value] (walk dst = resize (walk src), T2). *)
+   capability re-homing, freshness of every copy at byte level (frame of writePtr / copyStruct for
+   all trees, all arenas: no older byte but the pointer word / the destination struct changes).
+   [T2] copy_value: the value half is the block appended below (cross-message, single-segment
+   destination, capability-free values, word-aligned sources only); the independence half is
+   Properties_C16_indep.v.  Not proved: the value of a copy inside one message or into a
+   multi-segment destination; for copies inside one message C16_forced_copy_fresh
+   (Properties_C16_indep.v) shows that every copying writePtr call points its slot at a new object,
+   the closure over the whole copied tree is not stated as one theorem. *)
 From CV Require Import Core.Builder Core.ReaderFacts Core.ArithFacts Core.BuilderFacts Core.AllocProofs
   Core.WritePtrProofs Core.HeapProofs Core.CopyProofs.
 Open Scope Z_scope.
